@@ -59,7 +59,7 @@ def facts(core, client, serializers, nameserver, s):
     try:
         out["hash_ok"] = hash(u2) == hash(u)
     except TypeError:
-        out["hash_ok"] = True       # not hashable (tag sets): nothing to compare
+        out["hash_ok"] = False      # an accepted uri that cannot be hashed has no hash to be equal
     for name, ser in sorted(serializers.serializers.items()):
         try:
             v = ser.loads(ser.dumps(u))
@@ -135,7 +135,7 @@ def run(ctx):
             try:
                 heq = hash(a) == hash(b)
             except TypeError:
-                heq = True
+                heq = False
             traces.append({"kind": "pair", "s": s1, "s2": s2, "eq": bool(a == b), "same": bool(same), "hash_eq": heq})
             npairs += 1
     ctx.evaluations += npairs
